@@ -574,12 +574,14 @@ def fail_cases(setup, op, tail, second=True):
 
 def sprinkle_failures(rng, ops, p=0.05):
     """random histories: a few API calls get a scripted failure at a random system call (prefilter then drops what the
-    changed history makes illegal)"""
+    changed history makes illegal).  Not `free`: a clean-up that fails half-way (segment name left, lock name removed under
+    live handles) is a state the spec column cannot describe for arbitrary later ops; those failures are covered by the
+    directed `fail_cases` with their fixed recovery tails."""
     out = []
     for o in ops:
         t = o.split()
-        if len(t) >= 3 and t[0].isdigit() and t[1] in ("new-sem", "new-shm", "acq", "rel", "lock", "unlock", "free") and rng.random() < p:
-            out.append("%s fail %d:%s %s" % (t[0], rng.randrange(8 if t[1].startswith("new") else 4 if t[1] == "free" else 1),
+        if len(t) >= 3 and t[0].isdigit() and t[1] in ("new-sem", "new-shm", "acq", "rel", "lock", "unlock") and rng.random() < p:
+            out.append("%s fail %d:%s %s" % (t[0], rng.randrange(8 if t[1].startswith("new") else 1),
                                              rng.choice(FAIL_ERRS + ["EEXIST", "EINTR"]), " ".join(t[1:])))
         else:
             out.append(o)
